@@ -31,7 +31,7 @@ proof fn lemma_counted_in_table(mb: Metablock, m: Map<KeyId, PublicKey>, ks: Seq
     assert(m.contains_key(k) && m[k].kid() == id && m[k].sig_ok(signed_msg(mb.metadata)->0, mb.signatures@[j]));
 }
 
-//@extract src/verifylib.rs fn:verify_layout_signatures props=C01
+//@extract src/verifylib.rs fn:verify_layout_signatures props=C01,C08
 //@contract ret=r
 //@include contracts/verify_layout_signatures.rs
 //@before /layout\.verify\(/
@@ -127,7 +127,7 @@ proof fn lemma_counted_in_table(mb: Metablock, m: Map<KeyId, PublicKey>, ks: Seq
                 }
 //@end
 
-//@extract src/verifylib.rs fn:verify_link_signature_thresholds props=C02,C14
+//@extract src/verifylib.rs fn:verify_link_signature_thresholds props=C02,C08,C14
 //@subst G2 /let mut metadata_verified = HashMap::new\(\);/ => let mut metadata_verified: HashMap<String, HashMap<KeyId, Metablock>> = HashMap::new();
 //@contract ret=r
 //@include contracts/thresholds.rs
